@@ -306,7 +306,20 @@ int filter_tee_header (struct filter *chain)
 		lerr (_("error closing output file %s"),
 			env.outfilename != NULL ? env.outfilename : "<stdout>");
 
-	while (wait (0) > 0) ;
+	/* The children of this process write the header file.  Do not
+	 * report success unless they all did.
+	 */
+	{
+		int     child_status, failed = 0;
+
+		while (wait (&child_status) > 0)
+			if (!WIFEXITED (child_status)
+			    || WEXITSTATUS (child_status) != 0)
+				failed = 1;
+
+		if (failed)
+			FLEX_EXIT (1);
+	}
 
 	FLEX_EXIT (0);
 	return 0;
